@@ -26,6 +26,7 @@ import YataProofs.Indicators.StochRun
 import YataProofs.Indicators.RSIRun
 import YataProofs.Indicators.BBRun
 import YataProofs.Indicators.KeltnerRun
+import YataProofs.Indicators.CMORun
 import YataProofs.Numeric.TSIRange
 import YataProofs.Numeric.MeanAbsDev
 namespace Yata.C12
@@ -208,6 +209,11 @@ theorem C12_keltner_run {P : Nat} (c : KeltnerCfg) (k0 : Candle ℚ) (hv : Keltn
     ∃ s0 outs s', Keltner.init P c k0 = .ok s0 ∧ runM Keltner.vals s0 cs = .ok (outs, s') ∧ outs.length = cs.length ∧
       ∀ o ∈ outs, ∃ src up lo, o.map VExp.value = [src, up, lo] ∧ lo ≤ up := Keltner.run_spec c k0 hv h1 hp hk0 cs hcs
 
+/-- Chande momentum oscillator over whole candle streams, from its constructor: no step panics, value in [−1, 1] at every step -/
+theorem C12_cmo_run {P : Nat} (c : CMOCfg) (k0 : Candle ℚ) (s0 : CMO) (h0 : CMO.init P c k0 = .ok s0) (cs : List (Candle ℚ)) :
+    ∃ outs s', runM CMO.vals s0 cs = .ok (outs, s') ∧ outs.length = cs.length ∧
+      ∀ i (hi : i < outs.length), ∃ v, outs[i] = [v] ∧ -1 ≤ v.value ∧ v.value ≤ 1 := CMO.run_range c k0 s0 h0 cs
+
 theorem C12_tr_nonneg (c : Candle ℚ) (p : ℚ) (h : c.low ≤ c.high) : 0 ≤ c.trClose p := tr_nonneg c p h
 
 theorem C12_clv_range (c : Candle ℚ) (h1 : c.low ≤ c.close) (h2 : c.close ≤ c.high) : -1 ≤ c.clv ∧ c.clv ≤ 1 :=
@@ -249,3 +255,4 @@ end Yata.C12
 #print axioms Yata.C12.C12_rsi_run
 #print axioms Yata.C12.C12_bollinger_run
 #print axioms Yata.C12.C12_keltner_run
+#print axioms Yata.C12.C12_cmo_run
